@@ -402,7 +402,7 @@ def unit_fn(unit):
 
 def main(args):
     tier = args.tier
-    units = [{'kind': 'char', 'module': 'stdnum.util', 'L': 1}]
+    units = [{'kind': 'char', 'module': 'stdnum.util', 'L': 1, 'prio': -1}]
     if tier == 'quick':
         shapes = [(1, 1), (2, 1), (2, 2), (3, 1), (3, 0)]
         cap = dict(max_paths=4000, timeout=100)
@@ -410,7 +410,7 @@ def main(args):
         shapes = [(l, d) for l in range(0, 6) for d in range(0, 4) if l + d <= 7]
         cap = dict(max_paths=100000, timeout=900)
     for l, d in shapes:
-        units.append(dict(kind='str', module='stdnum.util', L=l, D=d, **cap))
+        units.append(dict(kind='str', module='stdnum.util', L=l, D=d, prio=-1, **cap))
     intro = common.introspect()
     # (c) applies to formats that clean their input, i.e. modules exposing compact(); the generic check-digit algorithm
     # modules validate caller-supplied strings over caller-supplied alphabets verbatim and have no clean-up step
